@@ -27,6 +27,7 @@ inductive GVal where
   | fieldList (ts : List GExpr)               -- `StructType.Fields`
   | fields (ts : List GExpr)                  -- `Fields.List`
   | field (t : GExpr)                         -- one `*ast.Field` (its Type)
+  | decl (d : GDecl)                          -- a top-level declaration
   | nil
   | bad                                       -- no such field: the IR is ill-typed for this node
 
@@ -83,6 +84,9 @@ def GVal.get (v : GVal) (f : String) : GVal :=
   | .spec (.otherSpec _) => .bad
   | .fieldList ts => if f == "List" then .fields ts else .bad
   | .field t => if f == "Type" then .expr t else .bad
+  | .decl (.funcDecl (some (lb, rb, list))) => if f == "Body" then .block lb rb list else .bad
+  | .decl (.funcDecl none) => if f == "Body" then .nil else .bad
+  | .decl (.genDecl sp) => if f == "Specs" then .specs sp else .bad
   | .stmts l => if f == "[0]" then (match l with | s :: _ => .stmt s | [] => .bad) else .bad
   | .exprs l => if f == "[0]" then (match l with | e :: _ => .expr e | [] => .bad) else .bad
   | _ => .bad
@@ -108,6 +112,8 @@ def GVal.kind : GVal → String
   | .spec (.valueSpec ..) => "ValueSpec"
   | .spec (.otherSpec _) => "?Spec"
   | .callOf .. => "CallExpr"
+  | .decl (.funcDecl _) => "FuncDecl"
+  | .decl (.genDecl _) => "GenDecl"
   | _ => "?"
 
 /-- `x != nil`; a nil slice and an empty slice are not distinguished (both walk nothing) -/
@@ -137,6 +143,21 @@ def GVal.endLine : GVal → Option Nat
   | .expr e => some e.rng.2
   | _ => none
 
+/-- line of a `token.Pos` field -/
+def GVal.tokLine (v : GVal) (tok : String) : Option Nat :=
+  match v with
+  | .stmt (.ifS l ..) => if tok == "If" then some l else none
+  | .stmt (.forS l ..) => if tok == "For" then some l else none
+  | .stmt (.rangeS l ..) => if tok == "For" then some l else none
+  | .stmt (.switchS l ..) => if tok == "Switch" then some l else none
+  | .stmt (.typeSwitchS l ..) => if tok == "Switch" then some l else none
+  | .stmt (.selectS l ..) => if tok == "Select" then some l else none
+  | .stmt (.caseC l _ _ _ colon _) => if tok == "Case" then some l else if tok == "Colon" then some colon else none
+  | .stmt (.commC l _ _ _ colon _) => if tok == "Case" then some l else if tok == "Colon" then some colon else none
+  | .stmt (.block l ..) => if tok == "Lbrace" then some l else none
+  | .block lb rb _ => if tok == "Lbrace" then some lb else if tok == "Rbrace" then some rb else none
+  | _ => none
+
 def evalC (c : Ctx) : Cond → Option Bool
   | .nonNil p => (c.resolve p).nonNil
   | .isNil p => (c.resolve p).nonNil.map (!·)
@@ -145,6 +166,10 @@ def evalC (c : Ctx) : Cond → Option Bool
   | .sameLine p q =>
     match (c.resolve p).posLine, (c.resolve q).endLine with
     | some a, some b => some (a == b)
+    | _, _ => none
+  | .sameTok p a q b =>
+    match (c.resolve p).tokLine a, (c.resolve q).tokLine b with
+    | some x, some y => some (x == y)
     | _, _ => none
   | .isKind p k => if (c.resolve p).kind == "?" then none else some ((c.resolve p).kind == k)
   | .tt => some true
@@ -162,6 +187,9 @@ inductive Item where
   | ev (e : Ev)
   | recS (l : List GStmt)      -- t.processStatements(l, fset)
   | recE (l : List GExpr)      -- t.analyzeAndModifyExpr(l, fset)
+  | recCtl (l : List GStmt)    -- t.processControlStatements(block, fset)
+  | recGSpecs (sp : List GSpec) -- t.processGlobalValueSpecs(specs, fset)
+  | recGLits (sp : List GSpec)  -- t.processGlobalFunctionLit(specs, fset)
 
 /-- elements a `range` visits -/
 def GVal.elems : GVal → Option (List GVal)
@@ -219,6 +247,18 @@ def evalA (c : Ctx) : Act → Res
     | some els => joinRes (els.map fun x => evalL { c with vars := (v, x) :: c.vars } body)
   | .tswitch p arms => evalArms c ((c.resolve p).kind) arms
   | .cont => some ([], true)
+  | .ctl p =>
+    match c.resolve p with
+    | .block _ _ l => some ([.recCtl l], false)
+    | _ => none
+  | .globalSpecs p =>
+    match c.resolve p with
+    | .specs sp => some ([.recGSpecs sp], false)
+    | _ => none
+  | .globalLits p =>
+    match c.resolve p with
+    | .specs sp => some ([.recGLits sp], false)
+    | _ => none
 def evalL (c : Ctx) : List Act → Res
   | [] => some ([], false)
   | a :: r =>
@@ -245,25 +285,21 @@ def expandItem : Item → List Ev
   | .ev e => [e]
   | .recS l => evL (abstrL l)
   | .recE l => evEs (abstrEs l)
+  | _ => []
 
 def expand (is : List Item) : List Ev := is.flatMap expandItem
 
-/-! ## the control-statement pass (`processControlStatements`, an `ast.Inspect` callback) -/
+/-- declaration level (`addStmts`): the calls of the control pass and of the two passes over global
+    value specs are answered by the model too -/
+def expandItemD (ch : Nat → Bool) : Item → List Ev
+  | .recCtl l => ctlL ch (abstrL l)
+  | .recGSpecs sp => (outerEs (abstrEs (specValues sp))).flatMap globalLitEvents
+  | .recGLits sp => (outerEs (abstrEs (specValues sp))).flatMap (globalLitCtl ch)
+  | it => expandItem it
 
-/-- line of a `token.Pos` field -/
-def GVal.tokLine (v : GVal) (tok : String) : Option Nat :=
-  match v with
-  | .stmt (.ifS l ..) => if tok == "If" then some l else none
-  | .stmt (.forS l ..) => if tok == "For" then some l else none
-  | .stmt (.rangeS l ..) => if tok == "For" then some l else none
-  | .stmt (.switchS l ..) => if tok == "Switch" then some l else none
-  | .stmt (.typeSwitchS l ..) => if tok == "Switch" then some l else none
-  | .stmt (.selectS l ..) => if tok == "Select" then some l else none
-  | .stmt (.caseC l _ _ _ colon _) => if tok == "Case" then some l else if tok == "Colon" then some colon else none
-  | .stmt (.commC l _ _ _ colon _) => if tok == "Case" then some l else if tok == "Colon" then some colon else none
-  | .stmt (.block l ..) => if tok == "Lbrace" then some l else none
-  | .block lb rb _ => if tok == "Lbrace" then some lb else if tok == "Rbrace" then some rb else none
-  | _ => none
+def expandD (ch : Nat → Bool) (is : List Item) : List Ev := is.flatMap (expandItemD ch)
+
+/-! ## the control-statement pass (`processControlStatements`, an `ast.Inspect` callback) -/
 
 /-- events, value of `changed` afterwards, `break` executed -/
 abbrev CRes := Option (List Ev × Bool × Bool)
